@@ -57,8 +57,12 @@ def table():
                     h += f'; replay: {k}'
                 how.append(h)
         note = ' (see note)' if m.get('history') else ''
+        if not m.get('confirmed', True):
+            who = 'no longer passes the existing tests'
+        else:
+            who = ', '.join(by) or 'MISSED'
         rows.append(f"| {os.path.basename(d)} | {f}: {fn} | {first_line(m.get('needs', ''))} | "
-                    f"{', '.join(by) or 'MISSED'}{note} | {'; '.join(sorted(set(how)))} |")
+                    f"{who}{note} | {'; '.join(sorted(set(how)))} |")
     notes = []
     for d in sorted(glob.glob(V + '/seeded/C*-*'), key=keyf):
         mp = os.path.join(d, 'meta.json')
